@@ -17,7 +17,7 @@ for f in sorted(glob.glob(os.path.join(HERE, 'seeded', '*', 'meta.json'))):
     ev = subprocess.run([os.path.join(HERE, 'tools_seed_eval.sh'),
                          os.path.join(os.path.dirname(f), 'patch.diff')] + checks,
                         capture_output=True, text=True)
-    caught = [c for c in checks if ('== %s rc=1' % c) in ev.stdout]
+    caught = [c for c in checks if ('== %s rc=1' % c) in ev.stdout and ('== %s rc=1 0 violation' % c) not in ev.stdout]
     m['caught_by'] = caught
     m['eval_output'] = ev.stdout[-1500:]
     json.dump(m, open(f, 'w'), indent=1)
